@@ -260,23 +260,84 @@ func verdictOfReq(req uint64) string {
 
 // ---------------------------------------------------------------- reading a wire image with the real Framer
 
+// countingReader delivers the wire image to the Framer, optionally SEGMENTED: seg = 0 in one piece (as much as asked
+// for), seg = 1 one byte per Read, seg < 0 pseudo-random cuts (state derived from -seg) with empty reads (0, nil) now
+// and then and the last bytes delivered together with io.EOF.
 type countingReader struct {
-	r *bytes.Reader
+	r   *bytes.Reader
+	seg int
+	st  uint64
 }
 
-func (c *countingReader) Read(p []byte) (int, error) { return c.r.Read(p) }
+func (c *countingReader) Read(p []byte) (int, error) {
+	if c.seg == 0 || len(p) == 0 {
+		return c.r.Read(p)
+	}
+	n := 1
+	if c.seg < 0 {
+		c.st = c.st*6364136223846793005 + 1442695040888963407
+		switch v := (c.st >> 33) % 8; {
+		case v == 0:
+			return 0, nil // an empty read
+		case v < 4:
+			n = 1
+		default:
+			n = int((c.st>>40)%13) + 1
+		}
+	}
+	if n > len(p) {
+		n = len(p)
+	}
+	k, err := c.r.Read(p[:n])
+	if err == nil && c.seg < 0 && c.r.Len() == 0 && k > 0 {
+		err = io.EOF // data and EOF together
+	}
+	return k, err
+}
 
 // readAll reads frames from wire with one real Framer.  stopAfter[offset of the frame start] makes the run stop after an
 // accepted frame whose compressed window extended past its own block (the junk is in the compressed domain, where
 // the identity-codec model cannot follow).
+// readAll reads the image three times — in one piece, one byte at a time, and with pseudo-random cuts, empty reads and
+// data+EOF — and demands the same result: `~segwide` marks the one known exception (a header frame whose declared
+// length reaches past its compressed block is accepted only if the extra bytes arrive in the same read), `~seg:` any other.
 func readAll(wire []byte, stopAfter map[int]bool, adj map[int]int, bounds map[int]bool, hdrRanges [][2]int, contOK map[int]bool) string {
+	var h uint64 = 1469598103934665603
+	for _, b := range wire {
+		h = (h ^ uint64(b)) * 1099511628211
+	}
+	r0, pos0 := readOnce(append([]byte(nil), wire...), 0, stopAfter, adj, bounds, hdrRanges, contOK)
+	for _, seg := range []int{1, -int(h%1000000) - 1} {
+		r, _ := readOnce(append([]byte(nil), wire...), seg, stopAfter, adj, bounds, hdrRanges, contOK)
+		if r == r0 {
+			continue
+		}
+		a, b := strings.Split(r0, " "), strings.Split(r, " ")
+		i := 0
+		for i < len(a) && i < len(b) && a[i] == b[i] {
+			i++
+		}
+		if i < len(pos0) && stopAfter[pos0[i]] {
+			return r0 + " ~segwide"
+		}
+		got := "-"
+		if i < len(b) {
+			got = b[i]
+		}
+		return fmt.Sprintf("%s ~seg:%d:%d:%s", r0, seg, i, got)
+	}
+	return r0
+}
+
+func readOnce(wire []byte, seg int, stopAfter map[int]bool, adj map[int]int, bounds map[int]bool, hdrRanges [][2]int, contOK map[int]bool) (string, []int) {
 	br := bytes.NewReader(wire)
-	fr, err := spdy.NewFramer(io.Discard, &countingReader{br})
+	fr, err := spdy.NewFramer(io.Discard, &countingReader{r: br, seg: seg, st: uint64(-seg)})
 	if err != nil {
-		return "newframer-failed"
+		return "newframer-failed", nil
 	}
 	defer fr.ReleaseWriter()
 	var out []string
+	var poss []int
 	var kept []keptFrame
 	var ms runtime.MemStats
 	for i := 0; i < maxFrames; i++ {
@@ -295,6 +356,10 @@ func readAll(wire []byte, stopAfter map[int]bool, adj map[int]int, bounds map[in
 			big = "!big"
 		}
 		consumed := len(wire) - br.Len()
+		poss = append(poss, pos)
+		if err != nil && f != nil {
+			big += "!frame" // contract: a failed ReadFrame returns no frame
+		}
 		spans := false
 		for _, hr := range hdrRanges {
 			if pos != hr[0] && pos < hr[1] && consumed > hr[0] {
@@ -367,7 +432,7 @@ func readAll(wire []byte, stopAfter map[int]bool, adj map[int]int, bounds map[in
 	for _, k := range kept {
 		out[k.idx] = renderFrame(k.f, k.adj) + out[k.idx]
 	}
-	return strings.Join(out, " ")
+	return strings.Join(out, " "), poss
 }
 
 type keptFrame struct {
